@@ -44,7 +44,7 @@ def getCollectionValue(collection, what):
         return convertEntries({k: collection.value[k]
                                for k in sorted(collection.value.keys())})
     elif collection.isObject() and what == "values":
-        return collection.value.values()
+        return list(collection.value.values())
     elif collection.isObject() and what == "entries":
         return convertEntries(collection.value)
     elif collection.isObject():
